@@ -112,7 +112,7 @@ PROPS = {
               rule='a case is a (state-building prefix, probe call) history enumerated by TLC from MCMuxide (scenarios contract/reject/finish); non-trivial when some call is rejected or >= 2 calls are accepted'),
     'C05': _p(lambda t: ['reject', 'frag', 'bound'],
               rule='a case is a history pair (H, H minus its rejected calls), both executed and compared; non-trivial when H contains a rejected call followed by an accepted call or a finish'),
-    'C06': _p(lambda t: ['finish', 'av', 'contract', 'sink', 'reject', 'metalayout'],
+    'C06': _p(lambda t: ['finish', 'av', 'contract', 'sink', 'reject', 'metalayout', 'bound'],
               rule='a case is a history with >= 1 finish attempt and >= 1 other call'),
 
     'C01': _p(lambda t: ['av', 'adts', 'layout', 'metalayout'],
@@ -121,7 +121,7 @@ PROPS = {
               rule='as C01: distinct (configuration, call sequence) pairs with >= 2 accepted samples in some track'),
     'C08': _p(lambda t: ['av', 'metalayout'],
               rule='every case is executed with fast start on and off and the two outputs compared; non-trivial when some track holds >= 2 samples'),
-    'C09': _p(lambda t: ['av', 'reject', 'layout', 'metalayout'],
+    'C09': _p(lambda t: ['av', 'reject', 'layout', 'metalayout', 'conv'],
               rule='distinct (configuration, call sequence) pairs with >= 1 accepted sample in each track'),
     'C15': _p(lambda t: ['av', 'layout', 'metalayout'],
               rule='distinct (configuration, call sequence) pairs with >= 1 accepted sample in each track'),
